@@ -115,6 +115,22 @@ def case(ctx, kind, sk=None, ufunc=None):
             ctx.fact('asarray-round-trip/%s' % nm, np.array_equal(sp.element(el.asarray()).asarray(), arr))
             el2 = sp.element(arr.astype('float16') if arr.dtype.kind == 'f' else arr.astype('int32'))
             ctx.fact('dtype-conversion-copies/%s' % nm, el2.dtype == sp.dtype)
+            # any array of the right shape and dtype is wrapped without copying, whatever its memory layout, so
+            # that a ufunc writing into the wrapper reaches the array
+            if len(sp.shape) == 2:
+                layouts = {'fortran': np.asfortranarray(np.ones(sp.shape, dtype=sp.dtype)),
+                           'transposed': np.ones(sp.shape[::-1], dtype=sp.dtype).T,
+                           'strided': np.ones((2 * sp.shape[0], 2 * sp.shape[1]), dtype=sp.dtype)[::2, ::2]}
+            else:
+                layouts = {'strided': np.ones(2 * sp.shape[0], dtype=sp.dtype)[::2]}
+            for lay, a2 in sorted(layouts.items()):
+                w = sp.element(a2)
+                ctx.fact('wrap-shares-memory/%s/%s' % (nm, lay), np.shares_memory(a2, w.asarray()))
+                if sp.dtype.kind == 'f':
+                    src = sp.element(np.full(sp.shape, 3.0, dtype=sp.dtype))
+                    np.multiply(src, 2, out=w)
+                    ctx.fact('out=wrapper-reaches-the-array/%s/%s' % (nm, lay), bool(np.all(a2 == 6.0)),
+                             'array holds %s' % a2.ravel()[:4])
         return
     if kind == 'pspace':
         base = {'rn2^2': (odl.rn(2), 2), 'rn1^1': (odl.rn(1), 1), 'discr2^2': (odl.uniform_discr(0, 1, 2), 2),
@@ -264,6 +280,18 @@ def case(ctx, kind, sk=None, ufunc=None):
             res = uf.outer(x, y)
             same_kind(ctx, 'outer', res, sp, uf.outer(cx, cx))
             ctx.eq('outer/values', res, ref)
+            if sp.dtype == np.dtype('float64') and ufunc in ('add', 'multiply'):
+                # operands of different dtypes: NumPy's result type, not that of the first operand
+                for odt in ('float32', 'complex128'):
+                    osp = odl.rn(sp.shape, dtype=odt) if odt == 'float32' else odl.cn(sp.shape)
+                    if hasattr(sp, 'partition'):
+                        osp = odl.uniform_discr(sp.min_pt, sp.max_pt, sp.shape, dtype=odt)
+                    y2 = ctx.element(osp, 'y_' + odt)
+                    for first, second, tag in ((y2, x, '%s,float64' % odt), (x, y2, 'float64,%s' % odt)):
+                        r2 = uf.outer(first, second)
+                        npr = uf.outer(np.ones(sp.shape, dtype=first.dtype), np.ones(sp.shape, dtype=second.dtype))
+                        same_kind(ctx, 'outer/%s' % tag, r2, sp, npr)
+                        ctx.eq('outer/%s/values' % tag, r2, uf.outer(raw(first), raw(second)))
             if not hasattr(sp, 'partition'):
                 # (discretized spaces document `reduceat` as not supported)
                 ref = uf.reduceat(raw(x), [0, 2])
@@ -320,6 +348,20 @@ def case(ctx, kind, sk=None, ufunc=None):
                     okk = okk and b is not None and np.allclose(np.asarray(b), e2)
                 ctx.fact('modf/out=%s/%s' % (pattern, ok), okk, 'returned (%r, %r)' % (type(a).__name__,
                                                                                      type(b).__name__))
+        # two outputs of different dtypes (frexp: mantissa float, exponent int32): each output carries its own
+        for pattern in ('none', 'first'):
+            outs = {'none': None, 'first': (sp.element(), None)}[pattern]
+            try:
+                m, e = np.frexp(xc) if outs is None else np.frexp(xc, out=outs)
+            except Exception as ex:
+                ctx.fact('frexp/out=%s' % pattern, False, 'raised %s: %s' % (type(ex).__name__, ex))
+                continue
+            em, ee = np.frexp(xc.asarray())
+            ctx.fact('frexp/out=%s/values-and-dtypes' % pattern,
+                     np.array_equal(np.asarray(m), em) and np.array_equal(np.asarray(e), ee)
+                     and np.dtype(getattr(m.dtype, 'dtype', m.dtype)) == em.dtype
+                     and np.dtype(getattr(e.dtype, 'dtype', e.dtype)) == ee.dtype,
+                     'dtypes (%s, %s), numpy gives (%s, %s)' % (m.dtype, e.dtype, em.dtype, ee.dtype))
         return
     if kind == 'divmod':
         y = ctx.element(sp, 'y')
